@@ -503,7 +503,9 @@ def explore(chk, rng, mon, tag, quick, prop="C06", gen=None, do_bfs=True):
 
 def run(chk):
     rng = random.Random(chk.seed)
-    chk.lean = core.lean_build(["BromeliaVerif.Properties.C06"])
+    import gen_psm
+    chk.tie_notes += gen_psm.generate()[1]       # tie (a): statemachine.py translated to Gen/PsmGen.lean on every run
+    chk.lean = core.lean_build(["BromeliaVerif.Properties.C06", "BromeliaVerif.Properties.C06Gen"])
     chk.rule = ("histories over {tick, connect ack/nack, local stop, peer disconnect, idle timeout, application submit, restart, inject m} "
                 "with m from 41 wire messages (valid CER/CEA/DWR/DWA/DPR/DPA of the configured peer; wrong host, wrong realm, no "
                 "Origin-Host, P flag, count-padding impostor, two Host-IP-Address, non-UTF-8 Origin-Host, vendor-flagged code 257, "
